@@ -5,10 +5,13 @@ Task "mcq" (all three samplers, small sample counts, every parameter placement, 
       - mhcustom with a deterministic caller step: they must be a contiguous window of length nsamples of the chain
         s_0 = x0, s_{k+1} = step(s_k) starting at index nburnout or nburnout+1 (both readings of "nsamples samples after
         nburnout burn-in steps"; mh itself uses the second), bit-for-bit (the step is ours and is applied to the same values);
+        the reading must not depend on nburnout: a second call with nburnout+1 must move the window by exactly one state;
+        custom_step receives exactly (x, *pparams);
       - _dummy1d: the n Gauss-Legendre nodes mapped through tan from [atan lb, atan ub] (numpy's leggauss as reference);
       - mh: exactly nburnout+nsamples fresh proposals are evaluated by log p, the samples follow the Metropolis chain
         structure (sample_k is sample_{k-1} or the k-th sampling proposal; an uphill proposal is always accepted; the state
-        after burn-in is x0 or a burn-in proposal);
+        after burn-in is x0 or a burn-in proposal that no later surely-accepted (uphill of every possible state) burn-in
+        proposal has superseded);
   * value = sum_i w_i f(x_i) on the recorded samples, w_i = 1/nsamples (mh, mhcustom) or the normalised quadrature weights
     (1+x_i^2) wGL_i p(x_i) (_dummy1d); tuple outputs component-wise; a constant component returns the constant; the component
     2*f_1 - 3*f_2 returns 2*E f_1 - 3*E f_2;
@@ -18,16 +21,18 @@ Task "mcq" (all three samplers, small sample counts, every parameter placement, 
         dS/dtheta_f = E[dF],   dS/dtheta_p = E[(F - E F) dlog p]                       (mean of df, covariance estimator)
     and, differentiating once more with the same identity, exactly the recursion of _MCQuad.backward (the backward is an
     expectation of the augmented function (dF, (F - E)dlog p) over the same samples whose own backward adds E[d aug],
-    Cov(aug, dlog p) and the chain through E).  The surrogate was cross-checked against finite differences of the fixed-sample
-    estimator (see ASSUMPTIONS).  Tensors entering neither f nor log p: zero or None, never an error.
+    Cov(aug, dlog p) and the chain through E).  The surrogate was cross-checked (first and second order) against central finite
+    differences of the _dummy1d value recomputed at perturbed parameters, which is the importance-reweighted estimator itself.  Tensors entering neither f nor log p: zero or None, never an error.
 
 Task "mhstat" (mh over seeds, Gaussian targets, thousands of samples): the structural invariants above plus
   * acceptance calibration: sum over downhill sampling steps of (accepted_k - exp(log p ratio_k)) is a martingale with
-    increments in [-1, 1]; Azuma-Hoeffding: |sum| <= sqrt(2 n ln(2/delta)), delta = 1e-10  (rigorous, non-asymptotic);
+    increments in [-1, 1]; Azuma-Hoeffding (supermartingale form, valid for the random number n of downhill steps, see
+    `azuma_bound`): |sum| <= ~sqrt(2 n ln(16/delta)), delta = 1e-10  (rigorous, non-asymptotic);
   * proposal increments (proposal_k - sample_{k-1})/step_size are iid N(0,1): chi-square bounds of Laurent-Massart with
     e^-t = 1e-10 on the sum of squares and |mean| sqrt(n) <= 7.2 (Gaussian tail 6e-13);
   * moments of the target: |mean - mu| <= 8 sigma sqrt(TAU/N) and |E z^2 - 1| <= 8 sqrt(2 TAU/N) with TAU = 50, twice the
-    largest integrated autocorrelation time measured for the generated step-size range (0.8..4 sigma, d<=2) — an 11-sigma band.
+    largest integrated autocorrelation time measured offline (24, at step 0.8 sigma_min, d=2, axis ratio 1.5) for the generated
+    range — an 11-sigma band.  Union bound over the five statistical tests of one case: < 1e-9.
 """
 from __future__ import annotations
 
@@ -43,10 +48,11 @@ from pbt.harness import Task, ok, violation, discard, xt_call
 PID = "C16"
 RULE = ("mcq: sampler in {mhcustom with a deterministic caller step (shift / negate / affine contraction / roll), _dummy1d (n<=12, "
         "finite / half-infinite / infinite bounds), mh (seeded; method given or defaulted)} x nsamples 1..8, nburnout 0..6 (drawn "
-        "independently, so mostly unequal) x f output {scalar, vector, tuple incl. a constant and a linear-combination component, "
-        "constant} x log p output shape {(), (1,)} x function kind of f and of log p from pbt/gen.py (explicit / object-held / derived "
+        "independently, so mostly unequal) x x0 of shape (d,), () or (d,1) x f output {scalar, vector, matrix, tuple / list incl. a constant and a "
+        "linear-combination component, constant} x log p output shape {(), (1,)} x function kind of f and of log p from pbt/gen.py (explicit / object-held / derived "
         "tensors, optional unused tensor, non-tensor parameter) x one leaf shared between f and log p x which leaves require grad x "
-        "bck_options x order 1/2.  mhstat: mh on Gaussian targets, d<=2, N in 1500..4000 (thorough 12000), step 0.8..4 sigma. "
+        "bck_options x order 1/2.  mhstat: mh on Gaussian targets, d<=2 (axis ratio <=1.5), N in 1500..4000 (thorough 12000), step 0.8..4 sigma_min, "
+        "nburnout in {0,1,7,50,200}, start within one sigma of the mean. "
         "Non-trivial = at least two different samples were recorded and (mcq) the integrand is not constant; distinct by canonical case.")
 ASSUMPTIONS = [
     "float64 only; x0 does not require grad; method names lower-case (case-insensitivity is C18's subject)",
@@ -54,7 +60,8 @@ ASSUMPTIONS = [
     "gradient tolerance 1e3*eps*(N+2)*A_k where A_k is the sum of the absolute values of the estimator's terms, measured per sample on "
     "the reference side (|F_i|+|E|, 1-norms of dF_i, dlog p_i and of their C-contracted second derivatives)",
     "the DiCE surrogate equals the fixed-sample estimator's derivatives to every order (derived by hand from d E_r[h] = E_r[dh] + "
-    "Cov_r(h, dlog p); checked against central finite differences of the first-order estimator on fixed cases during development)",
+    "Cov_r(h, dlog p); first and second order checked during development against central finite differences of the _dummy1d value "
+    "recomputed at perturbed parameters: agreement 3e-10 / 2e-7 = finite-difference accuracy)",
     "_dummy1d is called as the repository's own test calls it: 0-d x0, options nsamples/lb/ub",
     "mh: proposals are continuous, so two proposals never coincide bit-for-bit (probability ~ 2^-50 per pair)",
     "mhstat moment bands use TAU=50 >= 2x the integrated autocorrelation time measured offline for the generated range; the "
@@ -65,12 +72,12 @@ LEVEL_TEXT = ("Exploration with an observational oracle: the integrand's own cal
               "martingale/chi-square bounds and generous moment bands.")
 LEVEL_NOTE = "trusts torch autograd on the plain-torch surrogate and numpy's Gauss-Legendre nodes; mh moments are a >= 11-sigma band only"
 TECHNIQUE = "Hypothesis property-based testing: call-log observation + differentiable surrogate (DiCE) reference + martingale concentration bounds"
-WALL = {"quick": 300, "thorough": 1500}
+WALL = {"quick": 300, "thorough": 2400}
 
 # mcquad's backward (non-graph-recording branch) over-counts the gradient when one supplied tensor is computed from
 # another supplied one or a tensor is supplied twice (found by C09/C16, repair owned by C09).  While True, the generator
 # keeps the tensors supplied to one function independent (see `independent_spec`); set to False once the repair has landed.
-AVOID_DERIVED_PARAMS = True
+AVOID_DERIVED_PARAMS = False
 
 DT = torch.float64
 EPS = 2.220446049250313e-16
@@ -478,16 +485,16 @@ def run_mhstat(case):
         return violation("const_value", "constant component 2.5 returned %r" % res[2].tolist(), labels)
 
     # acceptance calibration on downhill steps (Azuma-Hoeffding)
+    # (steps are selected by a rule fixed in advance: all of them if nburnout == 0, else all but the first, whose
+    # previous state is not observable)
     dev, ndown = 0.0, 0
     incs = []
-    for prev, P, lpprev, lpP, acc in steps:
-        if prev is None:
-            continue
+    for prev, P, lpprev, lpP, acc in (steps if nb == 0 else steps[1:]):
         incs.append((P - prev) / step)
         if lpP <= lpprev:
             ndown += 1
             dev += (1.0 if acc else 0.0) - math.exp(lpP - lpprev)
-    bound = math.sqrt(2.0 * max(ndown, 1) * (LOG_INV_DELTA + math.log(2.0)))
+    bound = azuma_bound(ndown, N)
     if abs(dev) > bound:
         return violation("mh_acceptance", "sum over %d downhill proposals of (accepted - exp(log p ratio)) = %.1f, Azuma-Hoeffding bound %.1f" % (ndown, dev, bound), labels)
     # proposal increments ~ N(0, 1)
@@ -512,6 +519,19 @@ def run_mhstat(case):
     nacc = sum(1 for s_ in steps if s_[4])
     labels.append("acc=%s" % ("<20%" if nacc < 0.2 * N else "<50%" if nacc < 0.5 * N else ">=50%"))
     return ok(labels, nontrivial=nacc >= 2)
+
+
+def azuma_bound(v, n):
+    """bound on |M| for a martingale whose k-th increment has mean zero and lies in an interval of length 2 c_k, c_k in {0,1}
+    known before the increment is drawn, v = sum c_k (random): exp(l M - l^2 v / 2) is a supermartingale for every fixed l
+    (Hoeffding's lemma), so P(M >= l v / 2 + L / l) <= exp(-L); union over both signs and a fixed grid of 8 values of l
+    (optimal for v = n, n/2, ..., n/128) with 8 * 2 * exp(-L) = 1e-10."""
+    L = LOG_INV_DELTA + math.log(16.0)
+    best = float("inf")
+    for j in range(8):
+        lam = math.sqrt(2.0 * L / (n / 2.0 ** j))
+        best = min(best, lam * v / 2.0 + L / lam)
+    return best
 
 
 def mh_structure(x0, plog, samples, nb, ns):
@@ -635,5 +655,5 @@ def mhstat_st(draw, tier="quick"):
 
 
 def tasks(tier):
-    return [Task("mcq", strategy=case_st(tier), run=run_case, examples={"quick": 2000, "thorough": 36000}),
-            Task("mhstat", strategy=mhstat_st(tier), run=run_mhstat, examples={"quick": 120, "thorough": 1200})]
+    return [Task("mcq", strategy=case_st(tier), run=run_case, examples={"quick": 3000, "thorough": 50000}),
+            Task("mhstat", strategy=mhstat_st(tier), run=run_mhstat, examples={"quick": 160, "thorough": 1600})]
